@@ -689,7 +689,7 @@ func parseSpecFile(path, text, pkg string, trusted bool) (*SpecFile, error) {
 				return nil, fmt.Errorf("%s: clause outside func", loc)
 			}
 			f := strings.Fields(rest)
-			if len(f) < 3 || (f[0] != "mapstore" && f[0] != "reqresp" && f[0] != "close") {
+			if len(f) < 3 || (f[0] != "mapstore" && f[0] != "reqresp" && f[0] != "close" && f[0] != "send") {
 				return nil, fmt.Errorf("%s: expected 'site mapstore <local> label: expr' or 'site reqresp <channel> label: expr'", loc)
 			}
 			target := f[1]
